@@ -210,18 +210,11 @@ example : exErr [exHead "r" ++ "a and zz"] = some .value := by decide +kernel   
 example : exErr ["RULE r CATEGORY nope CUTOFF 1 NEIGHBOURHOOD 1 CONDITIONS a"] = some .syntax := by decide +kernel
 example : exErr [exHead "r" ++ "a", exHead "r" ++ "b"] = some .value := by decide +kernel          -- duplicate rule, second file
 example : exErr ["DEFINE x AS a DEFINE x AS b " ++ exHead "r" ++ "a"] = some .syntax := by decide +kernel  -- duplicate alias
-example : exErr ["DEFINE a AS b " ++ exHead "r" ++ "c"] = some .value := by decide +kernel         -- alias = signature
 example : exErr ["DEFINE x AS a or x " ++ exHead "r" ++ "x"] = some .value := by decide +kernel    -- D25
 example : exErr [exHead "r" ++ "a or (a)"] = some .value := by decide +kernel                      -- repeated operand
-example : exErr [exHead "r" ++ "minimum(2, [a, b, a])"] = some .value := by decide +kernel
-example : exErr ["RULE r CATEGORY cat NEIGHBOURHOOD 5 CONDITIONS a"] = some .syntax := by decide +kernel
 example : exErr [exHead "r" ++ "(a or b"] = some .syntax := by decide +kernel                      -- unbalanced
 example : exErr [exHead "r" ++ "cds(a)"] = some .syntax := by decide +kernel
-example : exErr [exHead "r" ++ "a and not"] = some .syntax := by decide +kernel
 example : exErr [exHead "r" ++ "not a and not (b or c)"] = some .value := by decide +kernel        -- nothing positive
 example : exErr ["RULE r CATEGORY cat SUPERIORS s CUTOFF 1 NEIGHBOURHOOD 1 CONDITIONS a " ++ exHead "s" ++ "b"]
     = some .value := by decide +kernel                                                              -- superior defined later
-example : exErr [exHead "s" ++ "b", "RULE r CATEGORY cat SUPERIORS s, s CUTOFF 1 NEIGHBOURHOOD 1 CONDITIONS a"]
-    = some .value := by decide +kernel
-
 end ASV.C02
